@@ -218,6 +218,9 @@ Proof.
   eapply Forall_impl; [|exact E2]. intros e. apply EvOK_frame. exact F1.
 Qed.
 
+Lemma good_pre st v v0 v2 ev : good st v v0 [] -> good st v0 v2 ev -> good st v v2 ev.
+Proof. intros G0 G. exact (good_app st v v0 v2 [] ev G0 G). Qed.
+
 (* changing fields the invariant does not read *)
 Lemma Inv_same v v' :
   v_ws v' = v_ws v -> v_over v' = v_over v -> v_round v' = v_round v -> v_idx v' = v_idx v ->
@@ -352,26 +355,26 @@ Proof.
     { inversion Hx; subst. apply Hg0. }
     destruct (VT v0 V.Precommit h p) as [[v1 e1] ok] eqn:Hvt.
     destruct (SM (if ok then set_precommitted v1 true else v1) h p) as [v3 e3] eqn:Hsm.
-    inversion Hx; subst; clear Hx.
+    injection Hx as Hv' Hev'; subst v' ev.
     pose proof (HVT v0 V.Precommit h p v1 e1 ok Hi0 (fun _ => Hq) Hvt) as G1.
     assert (G2 : good true v0 (if ok then set_precommitted v1 true else v1) e1).
     { destruct ok; [|exact G1]. eapply good_same; try exact G1; reflexivity. }
     pose proof (HSM _ h p v3 e3 (proj1 G2) Hsm) as G3.
-    eapply good_app; [apply Hg0|]. eapply good_app; eassumption.
+    eapply good_pre; [apply Hg0|]. eapply good_app; eassumption.
   - (* Precommit *)
     destruct (v_cert v0) eqn:Hcert; cbn [negb] in Hx.
     + destruct (v_certificated v0); cbn [negb] in Hx.
       * destruct (vst_status (over_get v0 h) V.Certificate Chamber) eqn:Hl.
         -- destruct (commit v0 h p) as [v1 e1] eqn:Hcm.
-           destruct (SM v1 h p) as [v2 e2] eqn:Hsm. inversion Hx; subst; clear Hx.
+           destruct (SM v1 h p) as [v2 e2] eqn:Hsm. injection Hx as Hv' Hev'; subst v' ev.
            assert (G1 : good true v0 v1 e1).
-           { eapply commit_spec; try eassumption.
-             - intros _. apply Hlatch. exact Hl.
-             - intros _ Hcf. change (v_cert v0) with (v_cert v) in Hcert. congruence. }
+           { apply (commit_spec v0 h p v1 e1 true Hi0);
+               [exact Hq | intros _; apply Hlatch; exact Hl
+                | intros _ Hcf; rewrite Hcert in Hcf; discriminate Hcf | exact Hcm]. }
            pose proof (HSM v1 h p v2 e2 (proj1 G1) Hsm) as G2.
-           eapply good_app; [apply Hg0|]. eapply good_app; eassumption.
+           eapply good_pre; [apply Hg0|]. eapply good_app; eassumption.
         -- inversion Hx; subst. apply Hg0.
-      * destruct (VT v0 V.Certificate h p) as [[v1 e1] ok] eqn:Hvt. inversion Hx; subst; clear Hx.
+      * destruct (VT v0 V.Certificate h p) as [[v1 e1] ok] eqn:Hvt. injection Hx as Hv' Hev'; subst v' ev.
         pose proof (HVT v0 V.Certificate h p v1 e1 ok Hi0 (fun Hd => ltac:(discriminate Hd)) Hvt) as G1.
         cbn [is_pos vt_eqb negb] in G1 |- *.
         assert (G1' : good true v0 v1 e1).
@@ -379,18 +382,18 @@ Proof.
           eapply Forall_impl; [|exact C]. intros e He.
           destruct e; cbn in He |- *; try exact He.
           destruct He as (?&?&?&?&_). repeat split; try assumption.
-          intros _ Hcf. change (v_cert v0) with (v_cert v) in Hcert. congruence. }
-        eapply good_app with (e1 := []); [apply Hg0|].
+          intros _ Hcf. change (v_cert v) with (v_cert v0) in Hcf. rewrite Hcert in Hcf. discriminate Hcf. }
+        eapply good_pre; [apply Hg0|].
         destruct ok; [|exact G1']. eapply good_same; try exact G1'; reflexivity.
     + destruct (commit v0 h p) as [v1 e1] eqn:Hcm.
-      destruct (SM v1 h p) as [v2 e2] eqn:Hsm. inversion Hx; subst; clear Hx.
+      destruct (SM v1 h p) as [v2 e2] eqn:Hsm. injection Hx as Hv' Hev'; subst v' ev.
       assert (G1 : good true v0 v1 e1).
-      { eapply commit_spec; try eassumption.
-        - intros Hct. change (v_cert v0) with (v_cert v) in Hcert. congruence.
-        - intros _ _. destruct (Hp eq_refl) as (Hts & Hc).
-          exists thr. split; [exact Hts|]. change (cur_w v0) with (cur_w v). rewrite Hc. exact Hov. }
+      { apply (commit_spec v0 h p v1 e1 true Hi0);
+          [exact Hq | intros Hct; rewrite Hcert in Hct; discriminate Hct | | exact Hcm].
+        intros _ _. destruct (Hp eq_refl) as (Hts & Hc).
+        exists thr. split; [exact Hts|]. change (cur_w v0) with (cur_w v). rewrite Hc. exact Hov. }
       pose proof (HSM v1 h p v2 e2 (proj1 G1) Hsm) as G2.
-      eapply good_app; [apply Hg0|]. eapply good_app; eassumption.
+      eapply good_pre; [apply Hg0|]. eapply good_app; eassumption.
   - (* NextIndex *)
     destruct (v_sent v0); inversion Hx; subst; clear Hx; [apply Hg0|].
     split; [eapply Inv_same; try exact Hi0; reflexivity|]. split; [repeat split|].
@@ -398,16 +401,396 @@ Proof.
   - (* Certificate *)
     destruct (vst_status (over_get v0 h) V.Precommit Chamber) eqn:Hl.
     + destruct (commit v0 h p) as [v1 e1] eqn:Hcm.
-      destruct (SM v1 h p) as [v2 e2] eqn:Hsm. inversion Hx; subst; clear Hx.
+      destruct (SM v1 h p) as [v2 e2] eqn:Hsm. injection Hx as Hv' Hev'; subst v' ev.
       assert (G1 : good false v0 v1 e1).
-      { eapply commit_spec; try eassumption.
-        - apply Hlatch. exact Hl.
-        - intros _. exact Hq.
-        - intros Hd; discriminate Hd. }
+      { apply (commit_spec v0 h p v1 e1 false Hi0);
+          [apply Hlatch; exact Hl | intros _; exact Hq | intros Hd; discriminate Hd | exact Hcm]. }
       pose proof (HSM v1 h p v2 e2 (proj1 G1) Hsm) as G2.
-      eapply good_app; [apply Hg0|]. eapply good_app; [exact G1|]. apply good_weaken. exact G2.
+      eapply good_pre; [apply Hg0|]. eapply good_app; [exact G1|]. apply good_weaken. exact G2.
     + inversion Hx; subst. apply Hg0.
 Qed.
 
+Lemma EvOK_frame_rev st v v' e : frame v v' -> EvOK st v e -> EvOK st v' e.
+Proof.
+  intros (Hr & Hi & Hc). unfold EvOK, round_of. rewrite Hr, Hi, Hc. tauto.
+Qed.
+
+(* ---- recording a vote in a wrapper --------------------------------------------------- *)
+Lemma wrapper_ok_new_vote key w t k a h n w' add c :
+  wrapper_ok H key w ->
+  Counted H (fst key) (snd key) t k h a (w32 n) ->
+  w_new_vote w t k a h n = (w', add, c) ->
+  wrapper_ok H key w' /\ (k = Chamber -> cnt (mget (w_chamber w') t) h = c).
+Proof.
+  intros Hw Hc Hx. unfold w_new_vote in Hx.
+  destruct (wsta w k t) as [s|] eqn:Hs.
+  2:{ inversion Hx; subst. split; [exact Hw|]. intros ->. discriminate Hs. }
+  destruct (sta_new_vote s a h n) as [[s' add'] c'] eqn:Hnv. inversion Hx; subst; clear Hx.
+  destruct (Hw k t s Hs) as (Hok & Hj).
+  destruct (sta_new_vote_spec _ _ _ _ _ _ _ Hok Hnv) as (Hok' & Hc' & Hent & _).
+  assert (Hk : k <> KOther) by (intros ->; discriminate Hs).
+  split.
+  - intros k' t' s'' Hs''. rewrite wsta_wput in Hs'' by exact Hk.
+    destruct (vk_eqb k k' && vt_eqb t t') eqn:Ekt.
+    + apply andb_true_iff in Ekt. destruct Ekt as (Ek & Et).
+      apply vk_eqb_eq in Ek. apply vt_eqb_eq in Et. subst k' t'. inversion Hs''; subst s''.
+      split; [exact Hok'|]. intros e He. destruct (Hent e He) as [Ho|Hn].
+      * apply Hj. exact Ho.
+      * subst e. cbn. exact Hc.
+    + apply Hw. exact Hs''.
+  - intros ->. cbn. rewrite mget_mset, vt_eqb_refl. symmetry. exact Hc'.
+Qed.
+
+Lemma wrapper_ok_addr_info key w t k a h w' r old :
+  wrapper_ok H key w -> w_addr_info w t k a h = (w', r, old) -> wrapper_ok H key w'.
+Proof.
+  intros Hw Hx. unfold w_addr_info in Hx.
+  destruct (wsta w k t) as [s|] eqn:Hs.
+  2:{ inversion Hx; subst. exact Hw. }
+  destruct (sta_addr_info s (vt_eqb t V.NextIndex) a h) as [[s' r'] old'] eqn:Hai.
+  inversion Hx; subst; clear Hx.
+  destruct (Hw k t s Hs) as (Hok & Hj).
+  destruct (sta_addr_info_spec _ _ _ _ _ _ _ Hok Hai) as (Hok' & Hent & _).
+  assert (Hk : k <> KOther) by (intros ->; discriminate Hs).
+  intros k' t' s'' Hs''. rewrite wsta_wput in Hs'' by exact Hk.
+  destruct (vk_eqb k k' && vt_eqb t t') eqn:Ekt.
+  - apply andb_true_iff in Ekt. destruct Ekt as (Ek & Et).
+    apply vk_eqb_eq in Ek. apply vt_eqb_eq in Et. subst k' t'. inversion Hs''; subst s''.
+    split; [exact Hok'|]. intros e He. apply Hj. apply Hent. exact He.
+  - apply Hw. exact Hs''.
+Qed.
+
+Lemma Inv_set_ws v ws :
+  Inv H v -> (forall key w, In (key, w) ws -> wrapper_ok H key w) -> Inv H (set_ws v ws).
+Proof. intros (I1 & I2) Hw. split; [exact Hw | exact I2]. Qed.
+
+Lemma set_wrapper_ok ws key w :
+  (forall k' w', In (k', w') ws -> wrapper_ok H k' w') -> wrapper_ok H key w ->
+  forall k' w', In (k', w') (set_wrapper ws key w) -> wrapper_ok H k' w'.
+Proof.
+  intros Hws Hw k' w' Hin. destruct (set_wrapper_in _ _ _ _ _ Hin) as [Ho|(-> & ->)];
+    [apply Hws; exact Ho | exact Hw].
+Qed.
+
+Lemma new_wrapper_ok ws key :
+  (forall k' w', In (k', w') ws -> wrapper_ok H k' w') ->
+  forall k' w', In (k', w') (new_wrapper ws key) -> wrapper_ok H k' w'.
+Proof.
+  intros Hws k' w' Hin. destruct (new_wrapper_in _ _ _ _ Hin) as [Ho| ->];
+    [apply Hws; exact Ho | apply wrapper_empty_ok].
+Qed.
+
+Lemma get_wrapper_app_none l k w :
+  get_wrapper l k = None -> get_wrapper (l ++ [(k, w)]) k = Some w.
+Proof.
+  induction l as [|[k' w'] r IH]; cbn.
+  - rewrite key_eqb_refl. reflexivity.
+  - destruct (key_eqb k' k); [discriminate | exact IH].
+Qed.
+
+Lemma get_wrapper_tl_none l k : get_wrapper l k = None -> get_wrapper (tl l) k = None.
+Proof.
+  destruct l as [|[k' w'] r]; cbn; [reflexivity|]. destruct (key_eqb k' k); [discriminate|tauto].
+Qed.
+
+Lemma get_new_wrapper l k : exists w, get_wrapper (new_wrapper l k) k = Some w.
+Proof.
+  unfold new_wrapper. destruct (get_wrapper l k) as [w|] eqn:Hg; [exists w; exact Hg|].
+  exists wrapper_empty. destruct (Nat.ltb (length l) max_vote_cache).
+  - apply get_wrapper_app_none. exact Hg.
+  - apply get_wrapper_app_none. apply get_wrapper_tl_none. exact Hg.
+Qed.
+
+(* ---- vote ------------------------------------------------------------------------------ *)
+Lemma vote_gen_spec J : JudgeSpec J -> VoteSpec (vote_gen E J).
+Proof.
+  intros HJ v t h p v' ev ok Hi Hpre Hx. unfold vote_gen in Hx.
+  destruct (own_view (own E) (round_of v) (v_idx v) t) as [[[seats thr] k]|] eqn:Hown.
+  2:{ inversion Hx; subst. apply good_nil. exact Hi. }
+  destruct (vt_eqb t V.NextIndex && match v_next_voted v with Some _ => true | None => false end
+            && V.already_voted (v_db v) V.NextIndex (V.enc (round_of v) (v_idx v))).
+  { inversion Hx; subst. apply good_nil. exact Hi. }
+  destruct (vt_eqb t V.Certificate && negb (certp_ok E)).
+  { inversion Hx; subst. apply good_nil. exact Hi. }
+  destruct (V.update_vote_data (v_db v) t (V.enc (round_of v) (v_idx v))) as [d okd].
+  destruct okd; cbn [negb] in Hx.
+  2:{ inversion Hx; subst. apply good_nil. exact Hi. }
+  set (v1 := set_db v d) in *.
+  assert (Hi1 : Inv H v1) by (eapply Inv_same; try exact Hi; reflexivity).
+  assert (Hts : k = Chamber -> thr_src H (round_of v) (v_idx v) t thr).
+  { intros ->. right. exists seats. exact Hown. }
+  destruct (get_wrapper (v_ws v1) (cur_key v1)) as [w|] eqn:Hg.
+  - destruct (w_new_vote w t k (self E) h seats) as [[w' add] c] eqn:Hnv.
+    set (v2 := set_ws v1 (set_wrapper (v_ws v1) (cur_key v1) w')) in *.
+    destruct (J v2 t c thr h p k) as [v3 e3] eqn:Hj. injection Hx as Hv' Hev' Hok'; subst v' ev ok.
+    pose proof (get_wrapper_in _ _ _ Hg) as Hin.
+    destruct Hi1 as (I1 & I2).
+    assert (Hcnt : Counted H (fst (cur_key v1)) (snd (cur_key v1)) t k h (self E) (w32 seats)).
+    { right. split; [reflexivity|]. exists seats, thr. split; [exact Hown|reflexivity]. }
+    destruct (wrapper_ok_new_vote _ _ _ _ _ _ _ _ _ _ (I1 _ _ Hin) Hcnt Hnv) as (Hw' & Hc).
+    assert (Hi2 : Inv H v2).
+    { apply Inv_set_ws; [split; assumption|]. apply set_wrapper_ok; assumption. }
+    assert (Hp2 : JPre v2 t c thr h k).
+    { intros Hk. split; [apply Hts; exact Hk|].
+      unfold cur_w. change (cur_key v2) with (cur_key v1). cbn [v2 set_ws v_ws].
+      rewrite (get_set_wrapper _ _ w' _ Hg). apply Hc. exact Hk. }
+    destruct (HJ v2 t c thr h p k v3 e3 Hi2 Hp2 Hj) as (Hi3 & Hf3 & He3).
+    split; [exact Hi3|]. split; [exact Hf3|].
+    constructor.
+    + cbn. intros ->. split; [reflexivity|]. split; [reflexivity|]. apply Hpre. reflexivity.
+    + eapply Forall_impl; [|exact He3]. intros e. apply EvOK_frame. repeat split.
+  - destruct (J v1 t 0 thr h p k) as [v3 e3] eqn:Hj. injection Hx as Hv' Hev' Hok'; subst v' ev ok.
+    assert (Hp1 : JPre v1 t 0 thr h k).
+    { intros Hk. split; [apply Hts; exact Hk|]. unfold cur_w. rewrite Hg. destruct t; reflexivity. }
+    destruct (HJ v1 t 0 thr h p k v3 e3 Hi1 Hp1 Hj) as (Hi3 & Hf3 & He3).
+    split; [exact Hi3|]. split; [exact Hf3|].
+    constructor.
+    + cbn. intros ->. split; [reflexivity|]. split; [reflexivity|]. apply Hpre. reflexivity.
+    + eapply Forall_impl; [|exact He3]. intros e. apply EvOK_frame. repeat split.
+Qed.
+
+(* ---- setMarkedBlock ---------------------------------------------------------------------- *)
+Lemma set_marked_gen_spec VT : VoteSpec VT -> MarkedSpec (set_marked_gen VT).
+Proof.
+  intros HVT v h p v' ev Hi Hx. unfold set_marked_gen in Hx.
+  destruct (match v_next_voted v with
+            | Some (nh, _) => negb (nh =? 0) || (nh =? h) || (h =? 0)
+            | None => false end).
+  { inversion Hx; subst. apply good_nil. exact Hi. }
+  destruct (negb (in_cache v h) && negb (h =? 0)).
+  { inversion Hx; subst. apply good_nil. exact Hi. }
+  destruct (v_step v <? 4).
+  { inversion Hx; subst; clear Hx.
+    destruct ((match v_next_marked v with None => true | Some _ => false end) && negb (h =? 0));
+      [|apply good_nil; exact Hi].
+    split; [eapply Inv_same; try exact Hi; reflexivity|]. split; [repeat split|constructor]. }
+  destruct (VT v V.NextIndex h p) as [[v1 e1] ok] eqn:Hvt. injection Hx as Hv' Hev'; subst v' ev.
+  pose proof (HVT v V.NextIndex h p v1 e1 ok Hi (fun Hd => ltac:(discriminate Hd)) Hvt) as G1.
+  cbn [is_pos vt_eqb negb] in G1.
+  destruct ok; [exact G1|]. eapply good_same; try exact G1; reflexivity.
+Qed.
+
+(* ---- the four layers ----------------------------------------------------------------------- *)
+Lemma vote0_spec : VoteSpec (vote0 E).
+Proof. apply vote_gen_spec, judge_gen_spec; [apply vote_none_spec | apply marked_none_spec]. Qed.
+Lemma set_marked_spec : MarkedSpec (set_marked E).
+Proof. apply set_marked_gen_spec, vote0_spec. Qed.
+Lemma vote1_spec : VoteSpec (vote1 E).
+Proof. apply vote_gen_spec, judge_gen_spec; [apply vote0_spec | apply set_marked_spec]. Qed.
+Lemma vote2_spec : VoteSpec (vote2 E).
+Proof. apply vote_gen_spec, judge_gen_spec; [apply vote1_spec | apply set_marked_spec]. Qed.
+Lemma judge_spec : JudgeSpec (judge E).
+Proof. apply judge_gen_spec; [apply vote2_spec | apply set_marked_spec]. Qed.
+Lemma vote_spec : VoteSpec (vote E).
+Proof. apply vote_gen_spec, judge_spec. Qed.
+
+(* ---- updateContext ------------------------------------------------------------------------- *)
+Lemma update_context_spec v r i stp cert maxp v' ev :
+  Inv H v -> update_context E v r i stp cert maxp = (v', ev) ->
+  Inv H v' /\ Forall (EvOK true v') ev.
+Proof.
+  intros Hi Hx. unfold update_context in Hx.
+  set (changed := match v_round v with
+                  | Some r0 => negb (r0 =? r) || negb (v_idx v =? i)
+                  | None => true end) in *.
+  match type of Hx with
+  | context [let '(va, ea) := ?X in _] => destruct X as [va ea] eqn:Hva
+  end.
+  set (vb := mkVoter (Some r) i stp cert (v_precommitted va) (v_committed va) (v_sent va) (v_certificated va)
+                     (v_next_marked va) (v_cur_marked va) (v_next_voted va) (v_over va) (v_ws va) (v_upd va)
+                     (V.update_context (v_db va) (V.enc r i)) (v_cache va) (v_srv va)) in *.
+  assert (Hib : Inv H vb).
+  { destruct changed eqn:Hch.
+    - inversion Hva; subst va ea; clear Hva. destruct Hi as (I1 & I2). split.
+      + cbn [vb v_ws]. apply new_wrapper_ok. exact I1.
+      + intros h t Hs. cbn in Hs. discriminate Hs.
+    - inversion Hva; subst va ea; clear Hva.
+      assert (Hr : v_round v = Some r /\ v_idx v = i).
+      { unfold changed in Hch. destruct (v_round v) as [r0|]; [|discriminate Hch].
+        split; [f_equal|]; lia. }
+      destruct Hr as (Hr1 & Hr2). destruct Hi as (I1 & I2). split; [exact I1|].
+      intros h t Hs. specialize (I2 h t Hs). unfold round_of in I2 |- *. cbn [vb v_round v_idx].
+      rewrite Hr1, Hr2 in I2. exact I2. }
+  assert (Hea : Forall (EvOK true v') ea).
+  { destruct changed; inversion Hva; subst va ea; [|constructor].
+    destruct (v_upd v) as [[[ur ui] uh]|]; [|constructor].
+    destruct (get_wrapper (v_ws v) (ur, ui)); constructor; [exact I|constructor]. }
+  assert (Hfin : forall vc ec, good true vb vc ec -> vc = v' -> Inv H v' /\ Forall (EvOK true v') (ea ++ ec)).
+  { intros vc ec (A & B & C) ->. split; [exact A|]. apply Forall_app. split; [exact Hea|].
+    eapply Forall_impl; [|exact C]. intros e. apply EvOK_frame_rev. exact B. }
+  assert (Hnil : vb = v' -> ev = ea -> Inv H v' /\ Forall (EvOK true v') ev).
+  { intros <- ->. split; [exact Hib|exact Hea]. }
+  destruct (stp =? 2).
+  - destruct (match v_cur_marked vb with
+              | Some (h, p) => if negb (h =? 0) then Some (h, p) else None
+              | None => None end) as [[h p]|].
+    + destruct (vote E vb V.Prevote h p) as [[vc ec] okc] eqn:Hv. injection Hx as Hv' Hev'. subst ev.
+      apply (Hfin vc ec); [|exact Hv'].
+      apply (vote_spec vb V.Prevote h p vc ec okc Hib (fun Hd => ltac:(discriminate Hd)) Hv).
+    + destruct maxp as [[p h]|].
+      * destruct (vote E vb V.Prevote h p) as [[vc ec] okc] eqn:Hv. injection Hx as Hv' Hev'. subst ev.
+        apply (Hfin vc ec); [|exact Hv'].
+        apply (vote_spec vb V.Prevote h p vc ec okc Hib (fun Hd => ltac:(discriminate Hd)) Hv).
+      * injection Hx as Hv' Hev'. apply Hnil; congruence.
+  - destruct ((stp =? 4) || (stp =? 5)).
+    + destruct (v_committed vb || v_sent vb).
+      * injection Hx as Hv' Hev'. apply Hnil; congruence.
+      * destruct (match v_next_marked vb with
+                  | Some (h, p) => set_marked E vb h p
+                  | None => set_marked E vb 0 0 end) as [vc ec] eqn:Hsm.
+        injection Hx as Hv' Hev'. subst ev. apply (Hfin vc ec); [|exact Hv'].
+        destruct (v_next_marked vb) as [[h p]|]; eapply set_marked_spec; eassumption.
+    + injection Hx as Hv' Hev'. apply Hnil; congruence.
+Qed.
+
 End Step.
+
+(* ---- processVoteMsg ---------------------------------------------------------------------------- *)
+Lemma process_spec Hp v m v' ev c :
+  v = run_state E Hp -> Inv (Hp ++ [Msg m]) v -> process E v m = (v', ev, c) ->
+  good (Hp ++ [Msg m]) (is_pos (m_type m)) v v' ev.
+Proof.
+  intros Hv Hi Hx. set (H := Hp ++ [Msg m]) in *. unfold process in Hx.
+  set (same := match m_status m with Same => true | _ => false end) in *.
+  destruct (same && m_novote m). { inversion Hx; subst v' ev. apply good_nil. exact Hi. }
+  destruct (same && (negb (m_round m =? round_of v) || negb (m_idx m =? v_idx v))) eqn:Hctx.
+  { inversion Hx; subst v' ev. apply good_nil. exact Hi. }
+  destruct (vt_eqb (m_type m) V.Certificate && negb (certp_ok E)).
+  { inversion Hx; subst v' ev. apply good_nil. exact Hi. }
+  destruct (m_sig m) eqn:Hsig; cbn [negb] in Hx.
+  2:{ inversion Hx; subst v' ev. apply good_nil. exact Hi. }
+  destruct (m_stake m) as [[thr k]|] eqn:Hstake.
+  2:{ inversion Hx; subst v' ev. apply good_nil. exact Hi. }
+  destruct (cred_ok v m) eqn:Hcred; cbn [negb] in Hx.
+  2:{ inversion Hx; subst v' ev. apply good_nil. exact Hi. }
+  assert (Hcnt : Counted H (m_round m) (m_idx m) (m_type m) k (m_hash m) (m_sender m) (w32 (m_votes m))).
+  { left. exists Hp, [], m, thr. subst v. repeat split; try assumption; reflexivity. }
+  assert (Hmain :
+    (fun z => z = (v', ev, c) -> good H (is_pos (m_type m)) v v' ev)
+    (let key := (m_round m, m_idx m) in
+          let t := m_type m in
+          let ow := get_wrapper (v_ws v) key in
+          if negb same && ((match ow with None => true | Some _ => false end) || negb (vt_eqb t V.Precommit))
+          then (v, [], ret_ok)
+          else
+            let ws := match ow with Some _ => v_ws v | None => new_wrapper (v_ws v) key end in
+            let w := match get_wrapper ws key with Some w => w | None => wrapper_empty end in
+            let '(w1, res, oldh) := w_addr_info w t k (m_sender m) (m_hash m) in
+            match res with
+            | ANotVoted =>
+              let '(w2, add, total) := w_new_vote w1 t k (m_sender m) (m_hash m) (m_votes m) in
+              let v1 := set_ws v (set_wrapper ws key w2) in
+              if negb add then (v1, [], ret_ok)
+              else if same then
+                let '(v2, e2) := judge E v1 t total thr (m_hash m) (m_prio m) k in (v2, e2, ret_ok)
+              else if over_threshold total thr false then
+                (v1, [EUpdate (m_round m) (m_idx m) (m_hash m)
+                              (w_votes w2 V.Precommit Chamber (m_hash m))
+                              (w_votes w2 V.Precommit House (m_hash m))], ret_ok)
+              else (v1, [], ret_ok)
+            | ADifferent =>
+              let v1 := set_ws v (set_wrapper ws key w1) in
+              match oldh with
+              | Some h0 =>
+                if negb (vt_eqb t V.NextIndex) && evid_on E
+                then (v1, [EEvidence (m_round m) (m_idx m) t h0 (m_hash m)], ret_ok)
+                else (v1, [], ret_ok)
+              | None => (v1, [], ret_ok)
+              end
+            | _ => (set_ws v (set_wrapper ws key w1), [], ret_ok)
+            end)).
+  { cbv zeta.
+    set (key := (m_round m, m_idx m)).
+    destruct (negb same && ((match get_wrapper (v_ws v) key with None => true | Some _ => false end)
+                            || negb (vt_eqb (m_type m) V.Precommit))) eqn:Hold.
+    { intros Hz; inversion Hz; subst v' ev. apply good_nil. exact Hi. }
+    set (ws := match get_wrapper (v_ws v) key with Some _ => v_ws v | None => new_wrapper (v_ws v) key end).
+    assert (Hws : forall k' w', In (k', w') ws -> wrapper_ok H k' w').
+    { destruct Hi as (I1 & _). subst ws. destruct (get_wrapper (v_ws v) key); [exact I1|].
+      apply new_wrapper_ok. exact I1. }
+    assert (Hgw : exists w, get_wrapper ws key = Some w).
+    { subst ws. destruct (get_wrapper (v_ws v) key) as [w|] eqn:Hg; [exists w; exact Hg|].
+      apply get_new_wrapper. }
+    destruct Hgw as (w & Hgw). rewrite Hgw.
+    assert (Hw : wrapper_ok H key w) by (apply Hws; apply get_wrapper_in; exact Hgw).
+    destruct (w_addr_info w (m_type m) k (m_sender m) (m_hash m)) as [[w1 res] oldh] eqn:Hai.
+    pose proof (wrapper_ok_addr_info H key _ _ _ _ _ _ _ _ Hw Hai) as Hw1.
+    assert (Hset : forall wx, wrapper_ok H key wx -> Inv H (set_ws v (set_wrapper ws key wx))).
+    { intros wx Hwx. apply Inv_set_ws; [exact Hi|]. apply set_wrapper_ok; assumption. }
+    assert (Hplain : forall wx evs, wrapper_ok H key wx ->
+               Forall (EvOK H (is_pos (m_type m)) v) evs ->
+               good H (is_pos (m_type m)) v (set_ws v (set_wrapper ws key wx)) evs).
+    { intros wx evs Hwx Hev. split; [apply Hset; exact Hwx|]. split; [repeat split|exact Hev]. }
+    destruct res.
+    - intros Hz; inversion Hz; subst v' ev. apply Hplain; [exact Hw1|constructor].
+    - destruct (w_new_vote w1 (m_type m) k (m_sender m) (m_hash m) (m_votes m)) as [[w2 add] total] eqn:Hnv.
+      destruct (wrapper_ok_new_vote H key _ _ _ _ _ _ _ _ _ Hw1 Hcnt Hnv) as (Hw2 & Hc2).
+      destruct add; cbn [negb].
+      2:{ intros Hz; inversion Hz; subst v' ev. apply Hplain; [exact Hw2|constructor]. }
+      destruct same eqn:Hsame.
+      + set (v1 := set_ws v (set_wrapper ws key w2)).
+        destruct (judge E v1 (m_type m) total thr (m_hash m) (m_prio m) k) as [v2 e2] eqn:Hj.
+        intros Hz; inversion Hz; subst v' ev.
+        cbn [andb] in Hctx. apply orb_false_iff in Hctx. destruct Hctx as (Hcr & Hci).
+        assert (Hkey : cur_key v1 = key).
+        { unfold cur_key, key. change (round_of v1) with (round_of v). change (v_idx v1) with (v_idx v).
+          f_equal; lia. }
+        assert (Hp1 : JPre H v1 (m_type m) total thr (m_hash m) k).
+        { intros ->. split.
+          - left. exists m. unfold H. split; [apply in_or_app; right; left; reflexivity|].
+            change (round_of v1) with (round_of v). change (v_idx v1) with (v_idx v).
+            split; [lia|]. split; [lia|]. split; [reflexivity|exact Hstake].
+          - unfold cur_w. rewrite Hkey. cbn [v1 set_ws v_ws].
+            rewrite (get_set_wrapper _ _ w2 _ Hgw). apply Hc2. reflexivity. }
+        pose proof (judge_spec H v1 (m_type m) total thr (m_hash m) (m_prio m) k v2 e2
+                               (Hset w2 Hw2) Hp1 Hj) as G.
+        eapply good_pre; [|exact G]. apply Hplain; [exact Hw2|constructor].
+      + destruct (over_threshold total thr false); intros Hz; inversion Hz; subst v' ev;
+          (apply Hplain; [exact Hw2|]); [constructor; [exact I|constructor] | constructor].
+    - intros Hz; inversion Hz; subst v' ev. apply Hplain; [exact Hw1|constructor].
+    - destruct oldh as [h0|].
+      + destruct (negb (vt_eqb (m_type m) V.NextIndex) && evid_on E); intros Hz; inversion Hz; subst v' ev;
+          (apply Hplain; [exact Hw1|]); [constructor; [exact I|constructor] | constructor].
+      + intros Hz; inversion Hz; subst v' ev. apply Hplain; [exact Hw1|constructor].
+    - intros Hz; inversion Hz; subst v' ev. apply Hplain; [exact Hw1|constructor]. }
+  destruct (m_status m) eqn:Hst; try (apply Hmain; exact Hx);
+    inversion Hx; subst v' ev; apply good_nil; exact Hi.
+Qed.
+
+(* ---- one step, and all histories ----------------------------------------------------------------- *)
+Definition strict_of (o : op) : bool :=
+  match o with Msg m => is_pos (m_type m) | _ => true end.
+
+Lemma step_spec Hp v o v' ev c :
+  v = run_state E Hp -> Inv Hp v -> step E v o = (v', ev, c) ->
+  Inv (Hp ++ [o]) v' /\ Forall (EvOK (Hp ++ [o]) (strict_of o) v') ev.
+Proof.
+  intros Hv Hi Hx. apply (Inv_mono Hp [o]) in Hi. destruct o as [r i s cert maxp|m|h b|r i]; cbn in Hx.
+  - destruct (update_context E v r i s cert maxp) as [v1 e1] eqn:Hu. inversion Hx; subst v' ev.
+    eapply update_context_spec; eassumption.
+  - destruct (process_spec Hp v m v' ev c Hv Hi Hx) as (A & B & C). split; [exact A|].
+    eapply Forall_impl; [|exact C]. intros e. apply EvOK_frame_rev. exact B.
+  - destruct b; inversion Hx; subst v' ev; (split; [eapply Inv_same; try exact Hi; reflexivity|constructor]).
+  - inversion Hx; subst v' ev. split; [eapply Inv_same; try exact Hi; reflexivity|constructor].
+Qed.
+
+Lemma run_state_snoc Hp o : run_state E (Hp ++ [o]) = fst (fst (step E (run_state E Hp) o)).
+Proof. unfold run_state. rewrite fold_left_app. reflexivity. Qed.
+
+Theorem Inv_all : forall ops, Inv ops (run_state E ops).
+Proof.
+  intros ops. induction ops as [|o Hp IH] using rev_ind.
+  - apply Inv_init.
+  - rewrite run_state_snoc.
+    destruct (step E (run_state E Hp) o) as [[v' ev] c] eqn:Hs.
+    exact (proj1 (step_spec Hp _ o v' ev c eq_refl IH Hs)).
+Qed.
+
+Theorem events_ok : forall Hp o v' ev c,
+  step E (run_state E Hp) o = (v', ev, c) ->
+  Forall (EvOK (Hp ++ [o]) (strict_of o) v') ev.
+Proof.
+  intros Hp o v' ev c Hs. exact (proj2 (step_spec Hp _ o v' ev c eq_refl (Inv_all Hp) Hs)).
+Qed.
+
 End WithEnv.
